@@ -64,6 +64,19 @@ CHECKS.update({
             TRUST_HTTP, '4.10'),
 })
 
+CHECKS.update({
+    'C08': ('exploration',
+            'post-condition monitor wrapped around the real DashTiming.__init__ (hooked state checked with exact datetime/Fraction arithmetic) + offline history checker for publishTime monotonicity and day-stability; same wrapper active under real HTTP manifest requests',
+            'About 10^6 generated (now, start, depth, mup, reference) tuples per quick run on calendar-boundary and phase grids, thousands of '
+            'increasing-instant histories incl. midnight crossings, and every DashTiming the server builds while serving manifests.',
+            'Trusted: CPython datetime; for the HTTP layer: ' + TRUST_HTTP, '4.8'),
+    'C11': ('exploration',
+            'differential runtime monitor of the real PlayReady helpers against hashlib/uuid/pure-Python-AES re-implementations and an independent PRO reader; HTTP-boundary monitors for POST /clearkey and for ContentProtection elements vs request vs init pssh',
+            'Random KIDs/keys/seeds/key sets/header versions/licence URLs for the pure functions; generated ClearKey request mixes; manifests of the '
+            'seven DRM-capable templates with generated selections compared with the request and with the init segments of the same request.',
+            TRUST_HTTP + ' Oracles self-tested against FIPS-197 vectors.', '4.11'),
+})
+
 NOT_YET = {}
 
 
